@@ -52,6 +52,9 @@ func checkC07(c *Ctx) {
 	// ---- O4 inert scope / Close -----------------------------------------------------------------------
 	c.checkInertAndClose("O4 inert-and-close", fClosed)
 
+	// ---- O6 a scope handed out by the registry is live ----------------------------------------------------
+	c.checkLiveHandout("O6 live-handout")
+
 	// ---- O5 ------------------------------------------------------------------------------------------
 	c.checkLockPairing("O5 lock-pairing", []string{""}, eng, 12)
 	c.checkLockOrder("O5 lock-order", []string{""}, eng)
@@ -151,6 +154,21 @@ func (c *Ctx) checkGapSafeDeletes(rule string, fMap *types.Var, eng *lockEngine,
 					helpers = append(helpers, validated{fn, paramIndex(fn, exp)})
 				}
 			}
+			// (c) the key was looked up inside the same uninterrupted write-locked region and the delete
+			// is made on the hit edge of that lookup: the entry removed is the one just found
+			for _, l := range c.lookupsIn(fn) {
+				if l.fld != fMap || accessPath(l.base) != accessPath(base) || canon(l.key) != canon(k) || l.ok == nil {
+					continue
+				}
+				if !dominates(lock, l.at) || !dominates(l.at, in) {
+					continue
+				}
+				if guardedByEdge(in, boolValueCond(l.ok)) == nil || c.lockReleasedBetween(l.at, in, lockPath) {
+					continue
+				}
+				c.ok(rule, key, in.Pos(), "the deleted key was looked up (hit) inside the same uninterrupted write-locked region")
+				return
+			}
 			if okB {
 				c.ok(rule, key, in.Pos(), "delete is conditional on the key still mapping to the scope supplied by the caller (re-validated under the write lock)")
 				return
@@ -185,6 +203,91 @@ func (c *Ctx) checkGapSafeDeletes(rule string, fMap *types.Var, eng *lockEngine,
 	if len(helpers) > 0 {
 		c.floor(rule+"-caller", nSites, 2)
 	}
+}
+
+// checkLiveHandout: every scope that scopeRegistry.Subscope returns after finding it in a registry
+// bucket is returned only on paths that observed that very scope's closed flag not set (or the
+// scope is a test scope, which is never dropped). A closed scope is only waiting to be unregistered
+// and cleared by the next pass: handing it out gives the caller a scope that does not stay
+// registered, under whichever key (raw or sanitized spelling) it was found.
+func (c *Ctx) checkLiveHandout(rule string) {
+	fClosed, fTest := c.field("", "scope", "closed"), c.field("", "scope", "testScope")
+	fn := c.fn("", "scopeRegistry", "Subscope")
+	if fClosed == nil || fTest == nil || fn == nil {
+		c.missing(rule, "tally.scopeRegistry.Subscope / scope.closed / scope.testScope")
+		return
+	}
+	c.sawFunc(c.fnKey(fn))
+	lookups := c.lookupsIn(fn)
+	found := map[ssa.Value]*mapLookup{}
+	for i := range lookups {
+		l := &lookups[i]
+		if v, isV := l.at.(ssa.Value); isV && v.Referrers() != nil {
+			for _, r := range *v.Referrers() {
+				if e, isE := r.(*ssa.Extract); isE && e.Index == 0 {
+					found[e] = l
+				}
+			}
+		}
+	}
+	// expand phis: a value committed at the end of the predecessor it flows in from
+	var expand func(va valAt, depth int) []valAt
+	expand = func(va valAt, depth int) []valAt {
+		phi, ok := canon(va.Val).(*ssa.Phi)
+		if !ok || depth == 0 {
+			return []valAt{{canon(va.Val), va.At}}
+		}
+		var out []valAt
+		for i, e := range phi.Edges {
+			pred := phi.Block().Preds[i]
+			out = append(out, expand(valAt{e, pred.Instrs[len(pred.Instrs)-1]}, depth-1)...)
+		}
+		return out
+	}
+	n := 0
+	for _, r := range returnsOf(fn) {
+		for _, va0 := range resultValues(r, 0) {
+			for _, va := range expand(va0, 3) {
+				l := found[va.Val]
+				if l == nil {
+					continue
+				}
+				n++
+				key := fmt.Sprintf("%s#%d", c.fnKey(fn), n)
+				// edges that establish "live": closed flag of this scope observed not set, or testScope set
+				skip := map[*ssa.BasicBlock]int{}
+				for _, b := range fn.Blocks {
+					iff, ok := condOf(b)
+					if !ok {
+						continue
+					}
+					cond, neg := ssa.Value(iff.Cond), false
+					for {
+						if u, isU := cond.(*ssa.UnOp); isU && u.Op == token.NOT {
+							neg, cond = !neg, u.X
+							continue
+						}
+						break
+					}
+					if ci, isI := cond.(ssa.Instruction); isI {
+						if op := atomicOpOf(ci); op != nil && op.Field == fClosed && op.Kind == "load" && canon(op.Base) == va.Val {
+							skip[b] = b2i(!neg) // the "not closed" outcome
+							continue
+						}
+					}
+					if f, base := loadedField(cond); f == fTest && canon(base) == va.Val {
+						skip[b] = b2i(neg)
+					}
+				}
+				at := va.At
+				esc := reachAvoidingF(l.at, false, skip, func(i ssa.Instruction) bool { return i == at }, nil)
+				c.check(esc == nil, rule, key, at.Pos(), "a scope found in the registry is returned only after its closed flag was observed not set (or it is a test scope)",
+					"a scope found in the registry is returned on a path that never observed its closed flag not set: a scope that was closed and is waiting to be dropped is handed out, the next pass unregisters and clears it, and everything recorded on it afterwards is lost",
+					"lookup: "+c.describe(l.at), "returned at: "+c.describe(at))
+			}
+		}
+	}
+	c.floor(rule, n, 2)
 }
 
 func (c *Ctx) checkInertAndClose(rule string, fClosed *types.Var) {
